@@ -73,7 +73,15 @@ def run(ck, replay=None):
             w = ('out ' + ' '.join(c['bytes'])) if len(c['bytes']) == 1 else ('a [%s]' % ','.join(c['bytes']) if c['bytes'] else 'tout str ""')
             if len(c['bytes']) == 1:
                 w = 'out %s' % c['bytes'][0]
-            src = '%s %s %s' % (w, c['op'], f)
+            src = '%s %s %s %s' % (w, c['op'], c.get('flag', ''), f)
+            jobs.append({'id': cid, 'src': src, 'timeout_ms': 20000})
+            meta[cid] = (c, None, src, f)
+        elif c['kind'] == 'self':
+            cid += 1
+            f = os.path.join(fdir, 'f%d.txt' % cid)
+            open(f, 'w').write(''.join(x + '\n' for x in c['before']))
+            rx = '|'.join(sorted(c['keep'])) or 'zzz'
+            src = "open %s -> regexp 'm/^(%s)$/' %s %s" % (f, rx, c['op'], f)
             jobs.append({'id': cid, 'src': src, 'timeout_ms': 20000})
             meta[cid] = (c, None, src, f)
         else:
@@ -115,7 +123,7 @@ def run(ck, replay=None):
             if c['kind'] == 'file' and not c['bytes']:
                 # an empty stream: the file must hold nothing new
                 pass
-            key = 'file:%s' % (c.get('op') or (c['op1'] + c['op2']))
+            key = '%s:%s%s' % (c['kind'], c.get('op') or (c['op1'] + c['op2']), c.get('flag', ''))
             if got != want:
                 ck.violation(key + ':' + src.replace(fdir, ''), 'file holds %r; rule: %r' % (got, want), {'src': src, 'file': got, 'want': want})
             else:
